@@ -14,8 +14,7 @@ every fuel and recursion stack).  That development is relative to a leaf specifi
 `LeafSpec ev G` (marker equality and leaf merging respect the leaf truth `ev` on leaves satisfying the
 invariant `G`; the concrete instance for `leafEval E` is C06/C07's subject) — the theorems below take the
 same `S : LeafSpec ev G` and `M.Good G m`, so they compose with C07 without further hypotheses.  What
-remains explicit: `ReparseNames` (one leaf-level fact about `_merge_python_version_single_markers`' `str.replace`
-rewriting) for `only_mentions`, and `ReduceCtx` (C11's `pyConstraint_exact` / `createNested_exact` through `parse_marker`, C12's `allows_all` /
+remains explicit: `ReduceCtx` (C11's `pyConstraint_exact` / `createNested_exact` through `parse_marker`, C12's `allows_all` /
 `allows_any` soundness at the interpreter) for `reduce_exact`.  The statements without hypotheses are kept as
 `C17_…_full_statement`.
 -/
@@ -47,26 +46,26 @@ def exEnv : Env :=
 /-- **`only` mentions only the requested variables.**  Proved through C07's soundness induction instantiated
 with the invariant "named in `names`" (`Proofs/MarkerProjVars.lean`: every leaf a successful
 `_merge_single_markers` returns is named like an operand).  `hc`: the leaves' variables are spelt canonically
-(what `SingleMarker.__init__` stores; `leafSpec_canon` adds this to any invariant).  `HR : ReparseNames` is the
-one leaf-level fact taken as a hypothesis: the text `_merge_python_version_single_markers` rewrites with
-`str.replace` and re-parses is again a marker on `python_version` / `python_full_version`. -/
-theorem only_mentions_partial {ev : Leaf → Bool} {G : Leaf → Prop} (HR : ReparseNames) (S : LeafSpec ev G)
+(what `SingleMarker.__init__` stores; `leafSpec_canon` adds this to any invariant).  That the text
+`_merge_python_version_single_markers` rewrites with `str.replace` and re-parses is again a marker on
+`python_version` / `python_full_version` is proved (`reparseNames_holds`, `Proofs/MarkerProjReparse.lean`). -/
+theorem only_mentions_partial {ev : Leaf → Bool} {G : Leaf → Prop} (S : LeafSpec ev G)
     (hc : ∀ l, G l → Canon l) (names : List String) (m r : M) (hg : M.Good G m)
     (h : M.only names m = .ok r) : ∀ n ∈ M.vars r, n ∈ names :=
-  only_mentions_thm HR S hc names m r hg h
+  only_mentions_thm S hc names m r hg h
 
 /-- the simplifier's constructors mention no variable their operands do not mention (the former hypothesis
-`OfVars`, now a theorem relative to `S` and `ReparseNames`) -/
-theorem of_mentions {ev : Leaf → Bool} {G : Leaf → Prop} (HR : ReparseNames) (S : LeafSpec ev G)
+`OfVars`, now a theorem relative to `S`) -/
+theorem of_mentions {ev : Leaf → Bool} {G : Leaf → Prop} (S : LeafSpec ev G)
     (hc : ∀ l, G l → Canon l) (fuel : Nat) (stk : Stack) (ms : List M) (r : M) (hg : M.GoodAll G ms) :
     (multiOf fuel stk ms = .ok r → ∀ n ∈ M.vars r, n ∈ M.varsList ms) ∧
     (unionOf fuel stk ms = .ok r → ∀ n ∈ M.vars r, n ∈ M.varsList ms) :=
-  of_vars HR S hc fuel stk ms r hg
+  of_vars S hc fuel stk ms r hg
 
 /-- `_merge_single_markers` itself: the leaves of a successful merge are named like an operand -/
-theorem merge_mentions (HR : ReparseNames) (N : List String) (l1 l2 : Leaf) (im : Bool) (r : M)
+theorem merge_mentions (N : List String) (l1 l2 : Leaf) (im : Bool) (r : M)
     (h1 : Named N l1) (h2 : Named N l2) (h : mergeLeaves l1 l2 im = .ok (some r)) : M.Good (Named N) r :=
-  mergeLeaves_named HR N l1 l2 im r h1 h2 h
+  mergeLeaves_named N l1 l2 im r h1 h2 h
 
 /-- **`only` only weakens**: wherever the marker holds, its projection holds — for conjunctions *and*
 disjunctions, foreign leaves being replaced by the universal marker; the projection keeps the leaf
@@ -142,7 +141,7 @@ answers of `SingleMarker.reduce_by_python_constraint`; C07's `of` / `intersect` 
 `ReduceCtx ev G P W pc py` collects, at the environment under consideration (leaf truth `ev`, interpreter `py`
 with `pc.allows py`; `P`: the shape of the input's python leaves), the leaf specification and what is used from C11 (`pyConstraint_exact` for leaves and
 python-only markers, `createNested_exact` through `parse_marker`), C12 (`allows_all` yes / `allows_any` no
-soundness at `py`), canonical spelling of the variables and `ReparseNames`. -/
+soundness at `py`), and canonical spelling of the variables. -/
 theorem reduce_exact_partial {ev : Leaf → Bool} {G P : Leaf → Prop} {W : VC → Prop} (pc : VC) (py : Version)
     (C : ReduceCtx ev G P W pc py) (m r : M) (hg : M.Good (fun l => G l ∧ P l) m) (h : M.reduce pc m = .ok r) :
     M.Good G r ∧ M.sem ev r = M.sem ev m :=
@@ -154,16 +153,16 @@ names, and C12's `allows_all` yes / `allows_any` no at the probe for constraints
 Python range `pc` of C11's domain that is a well-formed constraint (`PyVCok`) and admits interpreter `X.Y.Z`, a
 marker whose leaves are what `_compact_markers` builds (`CompLeaf E`), its python leaves of the exact shape
 (`PyShaped`), the reduced marker validates on the environment of `X.Y.Z` to the same value as the original.
-Remaining hypotheses: the leaf specification `S`, `ReparseNames`, and `pyConstraint_exact` for the python-only
+Remaining hypotheses: the leaf specification `S` and `pyConstraint_exact` for the python-only
 sub-unions of the `MarkerUnion` shortcut (`hlow`). -/
 theorem reduce_exact_validate_partial (E : Env) (X Y Z : Nat) (hE : EnvPy E X Y Z)
-    (S : LeafSpec (leafEval E) (CompLeaf E)) (HR : ReparseNames) (pc : VC) (hd : PyDomVC pc = true)
+    (S : LeafSpec (leafEval E) (CompLeaf E)) (pc : VC) (hd : PyDomVC pc = true)
     (hpcok : PyVCok pc) (hpc : pc.allowsPlain (pyV X Y Z) = true)
     (hlow : ∀ (u : M) (g : VC), M.Good (CompLeaf E) u → (∀ n ∈ M.vars u, n ∈ pyNames) → gpc u = .ok g →
       PyVCok g ∧ (g.allowsPlain (pyV X Y Z) = true → M.sem (leafEval E) u = true))
     (m r : M) (hg : M.Good (fun l => CompLeaf E l ∧ PyShaped l) m) (h : M.reduce pc m = .ok r) :
     M.validate E r = M.validate E m := by
-  have C := reduceCtx_poetry E X Y Z hE S HR pc hd hpcok hpc hlow
+  have C := reduceCtx_poetry E X Y Z hE S pc hd hpcok hpc hlow
   have hr := reduce_exact_aux C m r hg h
   have hev : ∀ x, M.Good (CompLeaf E) x → M.Evaluable E x := fun x hx =>
     M.good_mono (fun l hl => by obtain ⟨s, _, _, hb, _⟩ := hl; exact hb) x hx
